@@ -208,6 +208,9 @@ func (d *DHCPv4) SerializeTo(b gopacket.SerializeBuffer, opts gopacket.Serialize
 	if err != nil {
 		return err
 	}
+	// PrependBytes does not zero the returned slice and the fixed-size fields
+	// below are written with copy(), which stops at the end of a shorter source.
+	clear(data)
 
 	data[0] = byte(d.Operation)
 	data[1] = byte(d.HardwareType)
